@@ -248,6 +248,10 @@ func genV1(r *rand.Rand, kind string) core.Case {
 			case 1:
 				pf = 1
 				second.toks = ch.sigPattern(r, []string{"forged", "insufficient", "all-absent", "forged-otherkey", "short", "long"}[r.Intn(6)], cur)
+				if len(second.toks) == 0 {
+					// (an empty commit does not decode: the reactor would drop it before the FSM)
+					second.toks = ch.sigPattern(r, "forged", cur)
+				}
 			case 2:
 				first.txv, second.ttxv = 1, 1
 				second.toks = ch.allSign(ch.ih)
